@@ -402,7 +402,25 @@ def judge (st : St) (op : Op) (res raw : String) (im : ImplState) : String × Li
       | some u => !uidxOK p.2 u
       | none => true) then "viol:uid-index"
     else "ok"
-  let v := [v1, v2, v3, v4, v5].find? (· != "ok")
+  -- (6) owner-sequence / activity fencing between consecutive dumps of one incarnation:
+  --     the active route of an identity never goes back to an older owner sequence, and a
+  --     touch never lowers its recorded activity second
+  let isTouch := match op with
+    | .touch .. => true
+    | _ => false
+  let v6 :=
+    if d.slots.any (fun p => match aget p.1 prev.slots with
+      | none => false
+      | some ps => sameAuth ps.target p.2.target && p.2.active.any (fun r => match findA r.key ps.active with
+          | some o => decide (r.seq < o.seq)
+          | none => false)) then "viol:owner-seq-regressed"
+    else if isTouch && d.slots.any (fun p => match aget p.1 prev.slots with
+      | none => false
+      | some ps => p.2.active.any (fun r => match findA r.key ps.active with
+          | some o => decide (routeSeen r < routeSeen o) && r.seq == o.seq
+          | none => false)) then "viol:touch-activity-regressed"
+    else "ok"
+  let v := [v1, v2, v3, v4, v5, v6].find? (· != "ok")
   -- a broken fence is reported once
   (v.getD "ok", fences.filter (fun f => !broken.contains f))
 
